@@ -510,6 +510,7 @@ def run_property(prop, tier, only=None, keep=False, jobs=16, seed=0,
         for r, fails in violations:
             path = write_replay(prop, r, fails, scr, workdir, tier)
             vio_paths.append(path)
+        seen_reasons = set()
         for r in results:
             tag = r.status
             print('%-9s %-44s %4d/%-4d obl  reach=%d  %5.1fs %s' % (
@@ -518,8 +519,12 @@ def run_property(prop, tier, only=None, keep=False, jobs=16, seed=0,
                 ('[' + r.unit.get('kind', 'E') +
                  (':bounded' if r.unit.get('kind') == 'B' else '') + ']')))
             if r.status == 'UNDECIDED':
-                print('   UNDECIDED unit=%s reason=%s' % (
-                    r.unit['name'], r.reason.replace('\n', ' | ')[:600]))
+                why = r.reason.replace('\n', ' | ')[:600]
+                if why in seen_reasons:
+                    why = '(same reason as above)'
+                else:
+                    seen_reasons.add(why)
+                print('   UNDECIDED unit=%s reason=%s' % (r.unit['name'], why))
             if r.status == 'FAIL':
                 for c in r.failed[:12]:
                     print('   FAILED %s  (%s) %s' % (c['id'], c['loc'],
